@@ -72,9 +72,13 @@ impl Printer {
     }
 
     fn measure(&mut self, s: &str) {
+        let w = UnicodeWidthStr::width_cjk(s);
         if !printable_ascii(s) {
             self.wide = true;
-            self.widths.insert(s.to_string(), UnicodeWidthStr::width_cjk(s));
+            self.widths.insert(s.to_string(), w);
+        } else if w != s.len() {
+            // would contradict `ascii_width_ok`: make it visible to the classifier
+            self.widths.insert(s.to_string(), w);
         }
     }
 
